@@ -1,0 +1,59 @@
+//go:build verif
+
+// Contracts for govc (contract-based deductive verification, see /verif/DESIGN.md).
+// This file contains comments only; it is compiled only with -tags=verif and adds no code.
+
+package first
+
+//@ package symbols
+//@ specfun IsTermF(s *symbols.Symbols, sym string) bool
+//@ func symbols.(*Symbols).IsTerminal
+//@   nobody
+//@   # proved in internal/parser/symbols (C10): a pure lookup
+//@   ensures [fun] result == IsTermF(this, sym)
+//@   assigns nothing
+//@
+//@ package first
+//@
+//@ func (SymbolSet).AddSet
+//@   prop C02 C06
+//@   requires [this] this != nil
+//@   ensures [union] forallS(k, has(this, k) == (old(has(this, k)) || has(that, k)))
+//@   assigns mapof(this)
+//@   loop 1
+//@     invariant [grow] forallS(k, has(this, k) == (old(has(this, k)) || visited(1, k)))
+//@
+//@ func (*FirstSets).GetSet
+//@   prop C02 C06
+//@   requires [this] this != nil
+//@   ensures [hit] imp(has(this.firstSets, prodName), result == this.firstSets[prodName])
+//@   ensures [miss] imp(!has(this.firstSets, prodName), result == nil)
+//@   assigns nothing
+//@
+//@ # inFirst(fs, sym, k): k is in FIRST(sym) - sym itself for a terminal, the recorded set for a nonterminal
+//@ spec inFirst(fs *FirstSets, sym string, k string) bool = ite(IsTermF(fs.symbols, sym), k == sym, has(fs.firstSets, sym) && has(fs.firstSets[sym], k))
+//@
+//@ func First
+//@   prop C02 C06
+//@   requires [fs] fs != nil
+//@   ensures [set] forallS(k, has(result, k) == inFirst(fs, sym, k))
+//@   ensures [fresh] result == nil || result >= old(alloc()) || (has(fs.firstSets, sym) && result == fs.firstSets[sym])
+//@   assigns nothing
+//@
+//@ # C02/C06: FIRST of a symbol string = the union of FIRST of its symbols up to and including the first one that is
+//@ # not nullable; it contains the marker "empty" exactly when every symbol is nullable
+//@ spec nullableAt(fs *FirstSets, symbols []string, j int) bool = inFirst(fs, symbols[j], "empty")
+//@ func FirstS
+//@   prop C02 C06 C04
+//@   requires [fs] firstSets != nil
+//@   # heap well-typedness: the recorded sets are objects that exist on entry
+//@   requires [sets-allocated] forallS(s, imp(has(firstSets.firstSets, s), 0 <= firstSets.firstSets[s] && firstSets.firstSets[s] < alloc()))
+//@   ensures [fresh] first != nil
+//@   ensures [members] forallS(k, imp(k != "empty", has(first, k) == some(i, 0, len(symbols), inFirst(firstSets, symbols[i], k) && all(j, 0, i, nullableAt(firstSets, symbols, j)))))
+//@   ensures [nullable] has(first, "empty") == (len(symbols) > 0 && all(j, 0, len(symbols), nullableAt(firstSets, symbols, j)))
+//@   assigns nothing
+//@   loop 1
+//@     invariant [i] 1 <= i && i <= len(symbols) && first != nil && first >= old(alloc())
+//@     invariant [flag] containEmpty == all(j, 0, i, nullableAt(firstSets, symbols, j))
+//@     invariant [members] forallS(k, has(first, k) == some(m, 0, i, inFirst(firstSets, symbols[m], k) && all(j, 0, m, nullableAt(firstSets, symbols, j))))
+//@     decreases len(symbols) - i
